@@ -249,6 +249,26 @@ def _check_from_tagged(ctx, fn):
                     a, b = nb[0][2], nb[0][3]
                     if a == ("field", pair, "0") and b == ("constdef", "common::TaggedCborSerializable::TAG"):
                         cond_ok = True
+            if not cond_ok:
+                # the comparison sits in an (inlined) extractor whose Err / Ok exits join before the caller's `?`: the conversion
+                # must not be reachable from the mismatch edge of `tag != Self::TAG` (failure-following reachability, DESIGN 3.18)
+                from lib.guards import edge_condition, reach_tracking_failures
+                TAGC = ("constdef", "common::TaggedCborSerializable::TAG")
+                for dblk, blk in enumerate(fn.blocks):
+                    if blk["cleanup"] or blk["term"]["k"] != "switch":
+                        continue
+                    for succ in set(fn.cfg.succ[dblk]):
+                        nb = normalize_bool_cond(edge_condition(fn, pv, dblk, succ) or (None, None, None)) if edge_condition(fn, pv, dblk, succ) else None
+                        if not nb or nb[0][0] != "binop" or nb[0][1] not in ("Ne", "Eq"):
+                            continue
+                        a, b = nb[0][2], nb[0][3]
+                        if not ((a == ("field", pair, "0") and b == TAGC) or (b == ("field", pair, "0") and a == TAGC)):
+                            continue
+                        mismatch = (nb[0][1] == "Ne") == bool(nb[1])
+                        if mismatch:
+                            seen = reach_tracking_failures(fn, succ, set())
+                            if calls[0]["bb"] not in seen and errs[0]["bb"] in seen | {succ}:
+                                cond_ok = True
             e = errs[0]
             err_is = e["inner"][0] == "aggr" and e["inner"][2] == "UnexpectedItem"
             good = ok_arg and cond_ok and err_is and t[1] == "common::AsCborValue::from_cbor_value"
